@@ -44,6 +44,7 @@ def Op.withNow (n : Nat) : Op → Op
   | .sCreate m c => .sCreate m c
   | .sUpdate m k => .sUpdate m k
   | .sDelete i a => .sDelete i a
+  | .sCreateNil => .sCreateNil
 
 theorem Op.now?_withNow {op : Op} {n k : Nat} (h : (op.withNow n).now? = some k) : k = n := by
   cases op <;> simp [Op.withNow, Op.now?] at h <;> exact h.symm
